@@ -78,10 +78,12 @@ class Lab(object):
         self.cfg = cfg
         self.rec = []
         self.cur = {}
+        self.seen_lists = []
         self.reg = {}
         self.exc_classes = {}
         sc = cfg.get('scripts') or {}
         self.mw_scripts = dict(((ph, inst), s) for ph, inst, s in sc.get('mw', []))
+        self.positional = set(sc.get('positional', []))
         self.ep_script = sc.get('ep', ['ctx', 'CTX'])
         self.rn_script = sc.get('rn', ['resp', 'RN'])
 
@@ -106,6 +108,8 @@ class Lab(object):
             return 'B:_dispatch_state'
         if isinstance(v, list) and name == '_ignored':
             return 'U:_ignored'
+        if isinstance(v, list) and all(isinstance(x, str) for x in v):
+            return v[0] if len(v) == 1 else 'LIST:' + ','.join(v)
         if isinstance(v, str):
             return v
         return 'OTHER:' + repr(v)[:40]
@@ -127,7 +131,11 @@ class Lab(object):
         return self.exc_classes[name]
 
     def received(self, kwargs):
-        return sorted([k, self.canon(k, v)] for k, v in kwargs.items() if v is not _D)
+        out = sorted([k, self.canon(k, v)] for k, v in kwargs.items() if v is not _D)
+        for k, v in kwargs.items():
+            if isinstance(v, list) and k != '_ignored' and not any(v is x for x in self.seen_lists):
+                self.seen_lists.append(v)
+        return out
 
     # ---- function bodies
     def mw_impl(self, inst, ph, provides, kwargs):
@@ -150,7 +158,10 @@ class Lab(object):
             self.reg[tag] = s
             given[n] = s
         try:
-            ret = nxt(**given)
+            if inst in self.positional:
+                ret = nxt(*[given[n] for n in provides])     # next(a, b): positional, in provides order
+            else:
+                ret = nxt(**given)
         except Exception as e:
             if isinstance(post, list) and post[0] == 'swallow':
                 self.rec.append(['leave', fid, ['resp', post[1]]])
@@ -229,6 +240,9 @@ class Lab(object):
         raise ValueError(kind)
 
     def make_mw(self, spec, classes):
+        """one class per type id (built from the first spec of that id); a later instance whose spec
+        differs gets instance-level attributes (functions as plain instance attributes, like
+        clastic's own ContextProcessor.render)"""
         from clastic.middleware import Middleware
         key = spec['id']
         if key not in classes:
@@ -250,8 +264,28 @@ class Lab(object):
                 body.append('        return _lab.mw_impl(self.inst, %r, self.%s, %s)' % (ph, prov, dict_src(sig)))
             ns = {'Middleware': Middleware, '_D': _D, '_lab': lab}
             exec('\n'.join(body) + '\n', ns)
-            classes[key] = ns['MW%d' % key]
-        return classes[key](spec['inst'])
+            classes[key] = (ns['MW%d' % key], spec)
+        cls, first = classes[key]
+        obj = cls(spec['inst'])
+        if first is not spec:
+            for a in ('unique', 'reorderable'):
+                if bool(spec[a]) != bool(first[a]):
+                    setattr(obj, a, bool(spec[a]))
+            for a in ('provides', 'endpoint_provides', 'render_provides'):
+                if list(spec[a]) != list(first[a]):
+                    setattr(obj, a, tuple(spec[a]))
+            for fname, ph, prov in (('request', 'q', 'provides'), ('endpoint', 'e', 'endpoint_provides'),
+                                    ('render', 'r', 'render_provides')):
+                if spec.get(fname) != first.get(fname):
+                    sig = spec.get(fname)
+                    if sig is None:
+                        setattr(obj, fname, None)
+                    else:
+                        ns = {'_D': _D, '_lab': self, '_obj': obj}
+                        exec('def f(%s):\n    return _lab.mw_impl(_obj.inst, %r, _obj.%s, %s)\n'
+                             % (params_src(sig), ph, prov, dict_src(sig)), ns)
+                        setattr(obj, fname, ns['f'])
+        return obj
 
     # ---- build + run
     def build(self):
@@ -270,7 +304,7 @@ class Lab(object):
             rn = self.make_callable(cfg['render']['sig'], cfg['render']['kind'], self.rn_impl)
         except SyntaxError as e:
             return 'HARNESS-SyntaxError:%s' % e
-        pattern = '/r' + ''.join('/<%s>' % u for u in cfg['url'])
+        pattern = '/r' + ''.join('/<%s%s>' % (u, '+' if u in cfg.get('url_multi', ()) else '') for u in cfg['url'])
         try:
             route = Route(pattern, ep, rn, middlewares=route_mws,
                           resources=dict((n, self.reg['R:' + n]) for n in cfg['route_resources']))
@@ -286,6 +320,9 @@ class Lab(object):
         env = wsgi.environ(path)
         self.cur = {'environ': env, 'app': self.app}
         r = wsgi.call(self.app, env)
+        for v in self.seen_lists:
+            v.append('MUTATED-BY-AN-EARLIER-REQUEST')      # a value of one request must never reach another
+        self.seen_lists = []
         if r.exc is not None:
             out = ['exc', type(r.exc).__name__]
             detail = str(r.exc)[:200]
@@ -301,7 +338,7 @@ def impl(cfg):
     c = lab.build()
     if c != 'ok':
         return {'construct': c}
-    route_path = '/r' + ''.join('/U:%s' % u for u in cfg['url'])
+    route_path = '/r' + ''.join('/U:%s' % u for u in cfg['url'])    # a multi binding takes exactly one segment here
     obs = {'construct': 'ok'}
     for name, path in (('null', '/zzz/nomatch'), ('route', route_path)):
         o1, t1, d1 = lab.request(path)
@@ -438,6 +475,7 @@ def gen_config(rng, defect=None, posonly=False):
     rn_first = ['context'] if rng.random() < 0.85 else []
     rn_sig = gen_sig(rng, rn_first, pool, base + req_all + rn_acc, 2, posonly)
     cfg = {'resources': resources, 'route_resources': route_resources, 'url': url,
+           'url_multi': [url[-1]] if (url and rng.random() < 0.3) else [],
            'mws': [spec(m) for m in mws_app], 'route_mws': [spec(m) for m in mws_route],
            'endpoint': {'sig': ep_sig, 'kind': rng.choice(KINDS)},
            'render': {'sig': rn_sig, 'kind': rng.choice(KINDS)}}
@@ -450,7 +488,7 @@ def gen_config(rng, defect=None, posonly=False):
 DEFECTS = ['dup_mw_mw', 'dup_mw_url', 'dup_mw_resource', 'dup_mw_builtin', 'dup_url_resource', 'dup_url_builtin',
            'reserved_resource', 'reserved_route_resource', 'first_not_next', 'no_params', 'next_in_endpoint',
            'next_in_render', 'context_in_request', 'context_in_endpoint', 'late_provider', 'unknown_name',
-           'dup_within_tuple', 'cycle', 'ep_provides_in_render']
+           'dup_within_tuple', 'cycle', 'ep_provides_in_render', 'first_not_next_instance', 'dup_same_mw_two_phases']
 
 
 def all_specs(cfg):
@@ -507,6 +545,26 @@ def apply_defect(rng, cfg, d):
             s['defaulted'] = []
             s['posonly'] = 0
             sync(cfg, m)
+    elif d == 'first_not_next_instance':
+        # a second instance of an already well-formed type carries an instance-level function without next first
+        c = [m for m in specs if m.get('request') is not None]
+        if c:
+            m = rng.choice(c)
+            lst = cfg['mws'] if m in cfg['mws'] else cfg['route_mws']
+            clone = json.loads(json.dumps(m))
+            clone['inst'] = max(x['inst'] for x in specs) + 1
+            clone['provides'], clone['endpoint_provides'], clone['render_provides'] = [], [], []
+            f = rng.choice([k for k in ('request', 'endpoint', 'render') if clone.get(k) is not None])
+            sg = clone[f]
+            sg['pos'] = (sg['pos'][1:] + ['next']) if (len(sg['pos']) > 1 and rng.random() < 0.5) else ['x1'] + sg['pos'][1:]
+            sg['defaulted'], sg['posonly'] = [], 0
+            lst.insert(lst.index(m) + 1, clone)
+    elif d == 'dup_same_mw_two_phases' and specs:
+        m = some_mw()
+        a, b = rng.sample(['provides', 'endpoint_provides', 'render_provides'], 2)
+        m[a] = m[a] + ['tw']
+        m[b] = m[b] + ['tw']
+        sync(cfg, m)
     elif d == 'no_params':
         m = some_mw('request')
         if m:
@@ -603,7 +661,8 @@ def gen_scripts(rng, cfg):
         for f, ph in (('request', 'q'), ('endpoint', 'e'), ('render', 'r')):
             if m.get(f) is not None:
                 funcs.append((ph, m['inst']))
-    sc = {'mw': [], 'ep': ['ctx', 'CTX'], 'rn': ['resp', 'RN']}
+    sc = {'mw': [], 'ep': ['ctx', 'CTX'], 'rn': ['resp', 'RN'],
+          'positional': [m['inst'] for m in all_specs(cfg) if rng.random() < 0.4]}
     x = rng.random()
     if x < 0.45:
         return sc
